@@ -5,7 +5,7 @@ PROPERTY = "C08"
 LEVEL = "exploration"
 RULE = ("REALLIFE: real git repositories with a bare origin. Histories of 1..12 invocations: `update` with random flag sets "
         "under a non-decreasing clock, deliberately failing invocations (no-change bump, rejected --set-version, invalid --tag, "
-        "contradictory VCS flags), --no-commit / --no-tag-commit / --no-push runs, actor events (unrelated commit, commit-all, "
+        "contradictory VCS flags), --no-commit / --no-tag-commit / --no-push runs, --allow-dirty runs while an unrelated tracked file has unstaged work, actor events (unrelated commit, commit-all, "
         "branch switch / creation) over grammar patterns and generated layouts (all line-ending regimes, globs). After every "
         "successful update: template walker over all files, `show`, exactly one new commit containing only configured files, "
         "one tag on that commit which is the newest matching tag, strictly greater than the start version; failing "
@@ -19,5 +19,6 @@ CAMPAIGNS = [RealLife("C08", quick=420, thorough=12000)]
 
 
 def sanity_gate(tier, total):
-    need = ["commit_and_tag", "failing_invocation", "actor_switch_branch", "actor_unrelated_commit", "progress_probe", "pushed"]
+    need = ["commit_and_tag", "failing_invocation", "actor_switch_branch", "actor_unrelated_commit", "progress_probe", "pushed",
+            "allow_dirty_with_unrelated_work"]
     return ["probe %s never fired" % p for p in need if total["probes"].get(p, 0) == 0]
